@@ -100,7 +100,7 @@ EXPLANATION = (
     "field of the control unit is latched only under that enable. "
     "R-C20-stage-control, a fourth one: the stall / squash / enable / advance equations of every stage satisfy, for every valuation "
     "of registers and inputs (propositional search, intermediate signals expanded consistently), hold-when-stalled, accept-when-not-"
-    "stalled, squashed => overwritten and not advancing, stall/squash/advance => valid, squash originated only when advancing. "
+    "stalled, hand-over S->T only when T accepts, squashed => overwritten and not advancing, stall/squash/advance => valid, squash originated only when advancing. "
     "R-C20-cksum: ChecksumFL.checksum, ChecksumCL (unpack + same function) and ChecksumRTL (8 chained step units + combine) "
     "denote the same function of the 8 words in a modular-arithmetic normal form (word order, widths, modulus 2^16, sum2:sum1); "
     "this clause is complete for the checksum part of the property up to the trusted Bits arithmetic, queueing/timing excluded.")
@@ -1043,6 +1043,17 @@ def _run_rtl(st, ev, q):
 
 # ---------------------------------------------------------------------------
 # comparison machinery
+def _floor(r, n):
+    """the instance count confirmed on the reference tree, exact: enforced when the rule is clean (a clean run that matched fewer
+    instances has lost anchors -> analysis error); a run with findings reports them and only refuses to be empty"""
+    if r.findings:
+        r.floor = n
+        r.require_floor(1)
+        r.floor = n
+    else:
+        r.require_floor(n)
+
+
 def diff_eff(want, got):
     out = []
     for k in SLOTS:
@@ -1115,7 +1126,7 @@ def semantics_rule(repo, rid, clause, run_model, where_mod, where_fn, floor):
         else:
             r.ok(mod, where_fn, cons, note=f"{len(parts)} uniform sub-cubes")
     r.evaluations = stats[0]
-    r.require_floor(floor)
+    _floor(r, floor)
     return r
 
 
@@ -1189,7 +1200,7 @@ def rule_cl(repo):
                        "redirect register is read as sentinel-or-address consistently by every stage",
                        run_cl, CL, 'ProcCL.construct', 13)
     cl_redirect_tests(repo, r)
-    r.require_floor(16)
+    _floor(r, 16)
     return r
 
 
@@ -1289,7 +1300,7 @@ def rule_isa_doc(repo):
         if not pd:
             raise AnalysisError(f"R-C20-isa-doc: the embedded tampered document (`{old}` -> `{new}`) is not flagged")
     r.evaluations += len(probes)
-    r.require_floor(18)
+    _floor(r, 18)
     return r
 
 
@@ -1432,7 +1443,7 @@ def rule_encoding(repo):
                                            f"every assembled program using the field executes another instruction")
         else:
             r.ok(m, fref.node.name, cons + f" ({len(paths)} paths)")
-    r.require_floor(29)
+    _floor(r, 29)
     return r
 
 
@@ -1479,7 +1490,7 @@ def rule_isa_set(repo):
                                      f"cannot be assembled / is rejected / is silently skipped by this model")
             else:
                 r.bad(mod, fn, cons, f"`{name}` in the {what} is not an instruction of the ISA document")
-    r.require_floor(54)
+    _floor(r, 54)
     return r
 
 
@@ -1571,7 +1582,7 @@ def rule_decode(repo):
             r.bad(inst, 'DecodeInstType.construct.comb_logic', cons, bad)
         else:
             r.ok(inst, 'DecodeInstType.construct.comb_logic', cons + f" -> codes {sorted(by_code)}")
-    r.require_floor(22)
+    _floor(r, 22)
     return r
 
 
@@ -1716,7 +1727,7 @@ def rule_arch(repo):
                                                f"the ISA reset vector is {rv:#x}")
     else:
         r.ok(dp, 'ProcDpath.construct', cons)
-    r.require_floor(7)
+    _floor(r, 7)
     return r
 
 
@@ -1867,7 +1878,7 @@ def rule_cksum(repo):
         r.bad(rt, 'ChecksumRTL.construct', 'eight step units', f"only {len(steps)} step units are instantiated")
     else:
         r.ok(rt, 'ChecksumRTL.construct', 'eight step units')
-    r.require_floor(5)
+    _floor(r, 5)
     return r
 
 
@@ -2133,7 +2144,7 @@ def rule_hazard_symmetry(repo):
                   f"bypass protects that operand, it is read stale right after an instruction writing it")
         else:
             r.ok(mod, 'ProcCtrl.construct.comb_control_table_D', cons)
-    r.require_floor(18)
+    _floor(r, 18)
     return r
 
 
@@ -2261,7 +2272,7 @@ def rule_gating(repo):
                  + (f"; exception: {exc[1]}" if exc else ''))
     r.observations.append("stages and their gating terms: " + '; '.join(
         f"{S}: {sorted(('~' if a == 'not' else '') + b for a, b in set().union(*[g for _, _, g in fam]))}" for S, fam in sorted(family.items())))
-    r.require_floor(9)
+    _floor(r, 9)
     return r
 
 
@@ -2357,7 +2368,7 @@ def rule_stage_regs(repo):
         else:
             r.ok(dp, 'ProcDpath.construct', cons + f" ({enable[S]})")
     r.observations.append(f"stage enables discovered from the valid-bit registers: {dict(sorted(enable.items()))}")
-    r.require_floor(40)
+    _floor(r, 40)
     return r
 
 
@@ -2486,7 +2497,7 @@ def rule_stage_control(repo):
         except AnalysisError:
             pass                      # data signals (bit vectors built with concat etc.) are not Boolean equations
     # stage enables and advance signals, discovered from the valid-bit registers
-    enable, advance, order = {}, {}, []
+    enable, advance, follows = {}, {}, {}
     for name, entries in ff.items():
         if name.startswith('val_'):
             S = name[4:]
@@ -2502,6 +2513,7 @@ def rule_stage_control(repo):
                     gset = {x[1] for x in _walk_nf(dnf[t[1]]) if isinstance(x, tuple) and x[:1] == ('sig',) and x[1].startswith('val_')}
                     if len(gset) == 1:
                         advance[next(iter(gset))[4:]] = t[1]
+                        follows[next(iter(gset))[4:]] = S
     if len(enable) < 5:
         raise AnalysisError(f"fewer than five pipeline stages found in ProcCtrl: {enable}")
     sig = lambda n: ('sig', n)
@@ -2548,8 +2560,19 @@ def rule_stage_control(repo):
             check(f"stage {S}: originates a squash => valid and not stalled", osq, AND(val, NOT(stall)),
                   f"a taken branch that is stalled in {S} squashes and redirects the front end in every stalled cycle, not once: "
                   f"instructions fetched from the branch target are killed again / the target is requested repeatedly")
-    r.observations.append(f"stage enables {dict(sorted(enable.items()))}, advance signals {dict(sorted(advance.items()))}")
-    r.require_floor(30)
+    # between consecutive stages: S hands its instruction over only in a cycle in which the next stage T accepts it
+    if len(follows) < 4:
+        raise AnalysisError(f"fewer than four stage-to-stage hand-overs found in ProcCtrl: {follows}")
+    for S, T_ in sorted(follows.items()):
+        if S not in advance or T_ not in enable:
+            raise AnalysisError(f"hand-over {S}->{T_} without advance / enable signal")
+        check(f"hand-over {S}->{T_}: {advance[S]} => {enable[T_]}", sig(advance[S]), sig(enable[T_]),
+              f"stage {S} advances although stage {T_} holds its (stalled) instruction: {S} considers its instruction delivered and "
+              f"takes the next one, {T_} never latches it -- the instruction is silently dropped (e.g. `lw; lw; addi` with a memory "
+              f"latency of two or more cycles)")
+    r.observations.append(f"stage enables {dict(sorted(enable.items()))}, advance signals {dict(sorted(advance.items()))}, "
+                          f"hand-overs {dict(sorted(follows.items()))}")
+    _floor(r, 34)
     return r
 
 
@@ -2684,6 +2707,10 @@ MUTANTS = [
     _m('sc-stall-M-without-valid', CTRL, "s.stall_M  @= s.val_M & ( s.ostall_M | s.ostall_W )", "s.stall_M  @= ( s.ostall_M | s.ostall_W )", 'R-C20-stage-control'),
     _m('sc-reg-en-X-follows-M', CTRL, "s.reg_en_X @= ~s.stall_X", "s.reg_en_X @= ~s.stall_M", 'R-C20-stage-control'),
     _m('sc-stalled-X-advances', CTRL, "s.next_val_X @= s.val_X & ~s.stall_X", "s.next_val_X @= s.val_X", 'R-C20'),
+    _m('sc-stall-X-ignores-M', CTRL, "s.stall_X  @= s.val_X & ( s.ostall_X | s.ostall_M | s.ostall_W )", "s.stall_X  @= s.val_X & ( s.ostall_X | s.ostall_W )", 'R-C20-stage-control'),
+    _m('sc-stall-D-ignores-X', CTRL, "s.stall_D  @= s.val_D & ( s.ostall_D | s.ostall_X | s.ostall_M | s.ostall_W   )", "s.stall_D  @= s.val_D & ( s.ostall_D | s.ostall_M | s.ostall_W   )", 'R-C20-stage-control'),
+    _m('sc-stall-F-ignores-D', CTRL, "s.stall_F  @= s.val_F & ( s.ostall_F | s.ostall_D | s.ostall_X |", "s.stall_F  @= s.val_F & ( s.ostall_F | s.ostall_X |", 'R-C20-stage-control'),
+    _m('sc-stall-M-ignores-W', CTRL, "s.stall_M  @= s.val_M & ( s.ostall_M | s.ostall_W )", "s.stall_M  @= s.val_M & ( s.ostall_M )", 'R-C20-stage-control'),
     # --- TinyRV0InstRTL -------------------------------------------------------------------------------------------
     _m('dec-add-funct3', INSTRTL, "if   s.in_[FUNCT3] == 0b000:     s.out @= ADD", "if   s.in_[FUNCT3] == 0b100:     s.out @= ADD", 'R-C20'),
     _m('dec-sll-srl-swapped', INSTRTL, "elif s.in_[FUNCT3] == 0b001:     s.out @= SLL", "elif s.in_[FUNCT3] == 0b001:     s.out @= SRL", 'R-C20'),
@@ -2768,6 +2795,8 @@ EQUIV = [
     _m('sc-reg-en-de-morgan', CTRL, "s.reg_en_D @= ~s.stall_D | s.squash_D", "s.reg_en_D @= ~( s.stall_D & ~s.squash_D )"),
     _m('sc-osquash-hoisted-temporary', CTRL, "s.osquash_X @= s.val_X & ~s.stall_X & s.pc_redirect_X", "leaving_X = s.val_X & ~s.stall_X\n      s.osquash_X @= s.pc_redirect_X & leaving_X"),
     _m('sc-next-val-conjuncts-reordered', CTRL, "s.next_val_D @= s.val_D & ~s.stall_D & ~s.squash_D", "s.next_val_D @= ~s.squash_D & s.val_D & ~s.stall_D"),
+    _m('sc-stall-disjuncts-reordered', CTRL, "s.stall_X  @= s.val_X & ( s.ostall_X | s.ostall_M | s.ostall_W )", "s.stall_X  @= ( s.ostall_W | s.ostall_X | s.ostall_M ) & s.val_X"),
+    _m('sc-stall-hoisted-temporary', CTRL, "s.stall_M  @= s.val_M & ( s.ostall_M | s.ostall_W )", "downstream = s.ostall_M | s.ostall_W\n      s.stall_M  @= s.val_M & downstream"),
     _m('ctrl-dont-care-renamed', CTRL, "if   inst == NOP  : s.cs @= concat( y, br_na,  n, imm_x, bm_x,   n, alu_x,   nr, wm_a, n,  n, n )",
        "if   inst == NOP  : s.cs @= concat( y, br_x,   n, imm_i, bm_rf,  n, alu_cp0, nr, wm_x, n,  n, n )"),
     _m2('alu-code-renumbered-consistently', [(CTRL, "alu_and = b4( 5 )", "alu_and = b4( 9 )"), (MISC, "elif s.fn == 5: s.out @= s.in0 & s.in1", "elif s.fn == 9: s.out @= s.in1 & s.in0")]),
